@@ -230,19 +230,38 @@ Section Store.
     destruct (admitted offered) eqn:E; [congruence|]. cbn. destruct (c_mgr cfg); reflexivity.
   Qed.
 
+  (* the node fails the request for pubkeys, or answers it with nothing *)
   Definition answers_nothing (vo : vout) (pubkeys : list N) : Prop :=
-    match vo with VErr => True | VOk l => node_answer l pubkeys = [] end.
+    match node_reply vo pubkeys with None => True | Some got => got = [] end.
 
   Lemma refresh_validators_empty : forall old pubkeys vo,
     answers_nothing vo pubkeys -> refresh_validators old pubkeys vo = old.
   Proof.
-    intros old pubkeys [|l] H; cbn in *; [reflexivity|]. rewrite H. reflexivity.
+    intros old pubkeys vo H. unfold answers_nothing in H. unfold C13_Accounts.refresh_validators.
+    destruct (node_reply vo pubkeys) as [got|]; [|reflexivity]. rewrite H. reflexivity.
   Qed.
 
-  Lemma refresh_validators_nonempty : forall old pubkeys l,
-    node_answer l pubkeys <> [] -> refresh_validators old pubkeys (VOk l) = node_answer l pubkeys.
+  Lemma refresh_validators_nonempty : forall old pubkeys vo got,
+    node_reply vo pubkeys = Some got -> got <> [] -> refresh_validators old pubkeys vo = got.
   Proof.
-    intros old pubkeys l H; cbn. destruct (node_answer l pubkeys); [congruence | reflexivity].
+    intros old pubkeys vo got E H. unfold C13_Accounts.refresh_validators. rewrite E.
+    destruct got; [congruence | reflexivity].
+  Qed.
+
+  (* a request that names the key the node chokes on fails as a whole: nothing is replaced, not
+     even the validators the node would have answered for *)
+  Lemma refresh_validators_fail_on : forall old pubkeys pk l,
+    In pk pubkeys -> refresh_validators old pubkeys (VFailOn pk l) = old.
+  Proof.
+    intros old pubkeys pk l H. apply refresh_validators_empty. unfold answers_nothing. cbn.
+    apply mem_N_In in H. rewrite H. exact I.
+  Qed.
+
+  Lemma node_reply_vals : forall vo pubkeys got,
+    node_reply vo pubkeys = Some got -> got = node_answer (vout_vals vo) pubkeys.
+  Proof.
+    intros [|l|pk l] pubkeys got; cbn; [discriminate | congruence |].
+    destruct (mem_N pk pubkeys); [discriminate | congruence].
   Qed.
 
   (* a refresh in which the signer offers nothing admissible and the node answers nothing (or
@@ -315,12 +334,12 @@ Section Store.
   (* what one refresh obtains from the node for the accounts known after its account phase;
      [] = nothing (error, empty answer, or -- dirk -- nothing asked because no account is known) *)
   Definition val_outcome (accs' : list N) (vo : vout) : list val :=
-    match vo with
-    | VErr => []
-    | VOk l => match c_mgr cfg with
-               | Dirk => if isnil accs' then [] else node_answer l accs'
-               | Wallet => node_answer l accs'
-               end
+    match node_reply vo accs' with
+    | None => []
+    | Some got => match c_mgr cfg with
+                  | Dirk => if isnil accs' then [] else got
+                  | Wallet => got
+                  end
     end.
 
   Fixpoint val_outcomes (accs : list N) (ops : list op) : list (list val) :=
@@ -336,9 +355,9 @@ Section Store.
     st_vals (refresh s offered vo) =
     or_else (val_outcome (refresh_accounts (st_accounts s) offered) vo) (st_vals s).
   Proof.
-    intros s offered vo. unfold C13_Accounts.refresh, val_outcome. cbn [st_vals].
-    destruct (c_mgr cfg); [destruct (isnil _); [destruct vo; reflexivity|]|];
-      (destruct vo as [|l]; cbn; [reflexivity|]); destruct (node_answer l _); reflexivity.
+    intros s offered vo. unfold C13_Accounts.refresh, val_outcome, C13_Accounts.refresh_validators. cbn [st_vals].
+    destruct (c_mgr cfg); [destruct (isnil _); [destruct (node_reply vo _); reflexivity|]|];
+      (destruct (node_reply vo _) as [got|]; cbn; [|reflexivity]); destruct got; reflexivity.
   Qed.
 
   Lemma or_else_assoc : forall (A : Type) (a b c : list A), or_else a (or_else b c) = or_else (or_else a b) c.
@@ -388,16 +407,18 @@ Section Store.
 
   Lemma vals_origin : forall ops s,
     st_vals (run_state s ops) = st_vals s \/
-    exists offered l pks, In (Refresh offered (VOk l)) ops /\ st_vals (run_state s ops) = node_answer l pks.
+    exists offered vo pks, In (Refresh offered vo) ops /\
+                           st_vals (run_state s ops) = node_answer (vout_vals vo) pks.
   Proof.
     induction ops as [|o ops IH]; intro s; cbn [run_state]; [left; reflexivity|].
     destruct o as [offered vo | sync e idx]; cbn [step fst].
     - destruct (IH (refresh s offered vo)) as [H | (o' & l' & pks & Hin & H)].
       + rewrite H, refresh_vals_outcome. unfold val_outcome.
-        destruct vo as [|l]; [left; reflexivity|].
+        destruct (node_reply vo _) as [got|] eqn:Er; [|left; reflexivity].
+        apply node_reply_vals in Er.
         destruct (c_mgr cfg); [destruct (isnil _); [left; reflexivity|]|];
-          (destruct (node_answer l _) eqn:E; [left; reflexivity|]);
-          right; eexists offered, l, _; (split; [left; reflexivity|]); cbn [or_else]; symmetry; exact E.
+          (destruct got as [|g got'] eqn:E; [left; reflexivity|]);
+          right; eexists offered, vo, _; (split; [left; reflexivity|]); cbn [or_else]; exact Er.
       + right; exists o', l', pks; split; [right; assumption | assumption].
     - destruct (IH s) as [H | (o' & l' & pks & Hin & H)]; [left; assumption|].
       right; exists o', l', pks; split; [right; assumption | assumption].
@@ -410,7 +431,7 @@ Section Store.
 
   (* properties of the node's answers are inherited by the store *)
   Definition answers_satisfy (P : list val -> Prop) (ops : list op) : Prop :=
-    forall offered l, In (Refresh offered (VOk l)) ops -> P l.
+    forall offered vo, In (Refresh offered vo) ops -> P (vout_vals vo).
 
   Lemma store_pointwise_invariant : forall (Q : val -> Prop) ops s,
     Forall Q (st_vals s) -> answers_satisfy (Forall Q) ops -> Forall Q (st_vals (run_state s ops)).
